@@ -571,6 +571,33 @@ def no_dtd_scanners(rep, f):
                "; ".join(bad), "class " + S)
 
 
+def recursion_decl_rule(rep, f):
+    rep.rule("C19.d/decl", "recursion is detectable: ReaderMgr's recursion check walks the stack of *entity declarations* of the readers "
+             "pushed so far and is skipped for a reader pushed without one; every reader pushed for an entity reference (the "
+             "pushReader / pushReaderAdoptEntity calls in scanEntityRef / expandPERef / scanPERef of the scanners and the DTD "
+             "scanner) therefore passes its declaration unconditionally — never a null, never a conditional with a null branch")
+    n = 0
+    for x in f.kind("call"):
+        c = x["x"]
+        if c[1] not in ("ReaderMgr::pushReader", "ReaderMgr::pushReaderAdoptEntity") or len(c[3]) < 2:
+            continue
+        q = x["_fn"]["q"]
+        if q.split("::")[-1] not in ("scanEntityRef", "expandPERef", "scanPERef"):
+            continue
+        n += 1
+        a = c[3][1]
+        nullish = a == ["i", 0] or any(isinstance(y, list) and y and y[0] == "?" and (y[2] in (["i", 0], ["cast", "XMLEntityDecl *", ["i", 0]]) or
+                                                                                        y[3] in (["i", 0], ["cast", "XMLEntityDecl *", ["i", 0]]) or
+                                                                                        ["i", 0] in (y[2], y[3]) or
+                                                                                        any(z == ["i", 0] for z in sx_walk(y[2])) or any(z == ["i", 0] for z in sx_walk(y[3])))
+                                       for y in sx_walk(a))
+        rep.ob("C19.d/decl", "%s@push:%s" % (q, x.get("l")), not nullish, "declaration passed: %s" % sx_str(a) if not nullish else
+               "%s (line %s) pushes the reader of an entity with the declaration argument %s, which can be null: the recursion check is "
+               "skipped for that reader and a self-referential entity expands without end" % (q, x.get("l"), sx_str(a)),
+               "%s:%s" % (x["_fn"]["file"], x.get("l", 0)))
+    rep.floor("C19.d/decl", n, 8)
+
+
 def run(rep):
     f = core.library_facts()
     rep.units.update(os.path.relpath(t, core.REPO) for t in f.tus)
@@ -581,6 +608,7 @@ def run(rep):
     gates(rep, f, found, cfgs)
     resolver_first(rep, f, found, cfgs)
     accounting(rep, f)
+    recursion_decl_rule(rep, f)
     no_dtd_scanners(rep, f)
     diag.run(rep, f, "C19")
     rep.undecided += ["RFC 2396 resolution results (XMLURL/XMLUri arithmetic)",
